@@ -1,8 +1,128 @@
-(* C19 - counters / thread-locals. Only statements here. *)
+(* C19 - counters / thread-locals: aggregates exact across thread and instance churn.
+   Only statements here; every proof is `exact <lemma of CT/CTProofs.v>`.
+
+   Model: CT/CTModel.v (one world of EnumerableThreadLocal / CompactEnumerableThreadLocal / counter cells; history =
+   list of op: thread Spawn/Exit, instance CNew/CDel/CMove/CMoveCtor, CAdd/CRead/CReset, CForEach/CAlive).
+   `run cf (start cf) h` is the state after ANY history h (ill-formed operations are no-ops, as in the harness);
+   a read in such a state is a read at a quiescent point.  g_sum/g_cnt/g_per/g_used are ghost fields recording what
+   the client contributed to the counter now held by a handle (they travel with the counter on moves).
+
+   Hypothesis `threads_small`: fewer than 2^16 - 128 thread ids were ever handed out.  It is needed: for_each casts
+   snapshot.size() to uint16_t, which is 0 once the storage has 65536 lines (not replayed on the real code).
+
+   Proved for all histories:  c19_sum_exact, c19_fresh_is_zero, c19_local_private, c19_local_stable,
+   c19_for_each_all_used, c19_for_each_alive_const_in_bounds.
+   Refuted on the faithful model, witnesses replayed on the real classes by checks/c19.py (KNOWN_FINDINGS):
+   c19_for_each_alive_refuted (non-const overload reads out of bounds, DESIGN F6) and c19_extreme_refuted (a
+   maxer/miner whose only sample equals the sentinel numeric_limits min/max reports an empty period).
+   NOT proved (stated in the header only, checked by monitors on the implementation):
+   - for_each_alive (const) visits EXACTLY the lines of live threads below the storage size (only in-bounds proved);
+   - maxer/miner: value() = extreme of the current period when no sample equals the sentinel;
+   Reader bounds (c19_reader_bounds) are proved for an interleaving machine of single-writer slots and one reader
+   (one step = one plain load/store of the real code, sequentially consistent); on the real classes they are checked
+   by the concurrent stress monitor. *)
 From Coq Require Import ZArith List.
+Require Import Verif.Conc.Machine.
 Require Import Verif.Gen.Gen_counter Verif.CT.CTModel Verif.CT.CTProofs.
 Import ListNotations.
 
-Theorem c19_stub : block_size = block_size.
-Proof. exact ct_stub. Qed.
-Print Assumptions c19_stub.
+(* At any quiescent point an adder reports exactly the sum of everything added and a summer the exact sum and
+   count, for every history of thread birth/death and instance construction/destruction/move. *)
+Theorem c19_sum_exact : forall cf h c i, cfg_ok cf -> ck cf = KAdder \/ ck cf = KSummer ->
+  let x := run cf (start cf) h in
+  threads_small cf x -> chnd x c = Some i ->
+  step cf x (CRead c) = (x, OVal (g_sum x c) (if is_summer (ck cf) then g_cnt x c else 0%Z)).
+Proof. exact ct_sum_exact. Qed.
+Print Assumptions c19_sum_exact.
+
+(* A newly created counter starts from zero, whatever was done to the instance id / cache-line offset it recycles. *)
+Theorem c19_fresh_is_zero : forall cf h c, cfg_ok cf -> ck cf = KAdder \/ ck cf = KSummer ->
+  let x := run cf (start cf) (h ++ [CNew c]) in
+  threads_small cf x -> chnd (run cf (start cf) h) c = None ->
+  exists i, chnd x c = Some i /\ step cf x (CRead c) = (x, OVal 0%Z 0%Z).
+Proof. exact ct_fresh_is_zero. Qed.
+Print Assumptions c19_fresh_is_zero.
+
+(* local() is private: two distinct live threads get distinct lines of the storage they asked for. *)
+Theorem c19_local_private : forall cf h t u s x1 s1 k1 x2 s2 k2, cfg_ok cf ->
+  let x := run cf (start cf) h in
+  threads_small cf x2 -> t <> u -> t_alive (thr x t) = true -> t_alive (thr x u) = true ->
+  local cf x t s = (x1, (s1, k1)) -> local cf x1 u s = (x2, (s2, k2)) ->
+  s1 = s /\ s2 = s /\ k1 <> k2.
+Proof. exact ct_local_private. Qed.
+Print Assumptions c19_local_private.
+
+(* local() is stable: once a thread has its line k, after any further history in which it does not exit (other
+   threads come and go, instances are created, destroyed, moved) local() on any storage still returns line k. *)
+Theorem c19_local_stable : forall cf h h2 t s k x2 s2 k2, cfg_ok cf ->
+  let x := run cf (start cf) h in let x' := run cf x h2 in
+  threads_small cf x2 -> t_tid (thr x t) = Some k -> Forall (no_exit t) h2 ->
+  local cf x' t s = (x2, (s2, k2)) -> s2 = s /\ k2 = k.
+Proof. exact ct_local_stable. Qed.
+Print Assumptions c19_local_stable.
+
+(* for_each visits every line that local() ever returned for the storage (threads that exited included). *)
+Theorem c19_for_each_all_used : forall cf h s k, cfg_ok cf ->
+  let x := run cf (start cf) h in
+  threads_small cf x -> In k (g_used x s) -> (k < each_bound x s)%nat.
+Proof. exact ct_for_each_all_used. Qed.
+Print Assumptions c19_for_each_all_used.
+
+(* for_each_alive, const overload: never reads outside the storage (any state). *)
+Theorem c19_for_each_alive_const_in_bounds_partial : forall x s, for_each_alive x true s <> None.
+Proof. exact ct_alive_const_in_bounds. Qed.
+Print Assumptions c19_for_each_alive_const_in_bounds_partial.
+
+(* for_each_alive, non-const overload (the one CompactEnumerableThreadLocal uses): reads out of bounds when a live
+   thread's id is beyond this storage's size. *)
+Theorem c19_for_each_alive_refuted :
+  exists cf h c, cfg_ok cf /\ threads_small cf (run cf (start cf) h) /\ chnd (run cf (start cf) h) c <> None /\
+    snd (step cf (run cf (start cf) h) (CAlive c false)) = OList None.
+Proof. exact ct_alive_nonconst_refuted. Qed.
+Print Assumptions c19_for_each_alive_refuted.
+
+(* maxer: the only sample of the period is numeric_limits<ssize_t>::min(): value() reports no sample. *)
+Theorem c19_extreme_refuted :
+  exists h c, let x := run cfg_maxer (start cfg_maxer) h in
+    g_per x c = [int64_min] /\ chnd x c <> None /\ step cfg_maxer x (CRead c) = (x, OVal 0%Z 0%Z).
+Proof. exact ct_extreme_refuted. Qed.
+Print Assumptions c19_extreme_refuted.
+
+(* All interleavings of counting threads with a reading thread: n single-writer slots (each writer adds the values
+   of its program, non-negative, one aligned store per addition), one reader that loads the slots in order; a
+   schedule is any list of thread ids.  Whenever the reader has loaded every slot its sum is at least the total at
+   the moment it started (everything completed before the read) and at most the total now (everything started
+   before the read ended). *)
+Theorem c19_reader_bounds : forall slots prog x, length prog = length slots -> nonneg prog ->
+  reachable rst rstep (rinit slots prog) x -> r_started x = true -> r_pos x = length (r_slots x) ->
+  (r_lo x <= r_acc x <= SZ (r_slots x))%Z.
+Proof. exact ct_reader_bounds. Qed.
+Print Assumptions c19_reader_bounds.
+
+(* ---- stated, not proved (monitors only) ----
+   c19_for_each_alive_exact : for every history h, storage s: for_each_alive x true s = Some (the ids k < csize x s
+     that are allocated and not on the free list, in increasing order).
+   c19_extreme_exact : for kinds KMaxer/KMiner, every history without moves and with fewer than 2^64-1 resets, live
+     handle c whose current period g_per x c is non-empty and contains no sample equal to extremum k:
+     step cf x (CRead c) = (x, OVal m 1) with m in g_per x c and no sample of the period more extreme than m;
+     empty period: OVal 0 0. *)
+
+(* ---- non-vacuity ---- *)
+Example c19_reader_run :
+  let x := Machine.run rst rstep (rinit [0; 0]%Z [[1; 2]; [5]]%Z) [2; 0; 1; 2; 0]%nat in
+  r_started x = true /\ r_pos x = length (r_slots x) /\ (r_lo x, r_acc x, SZ (r_slots x)) = (0, 5, 8)%Z.
+Proof. vm_compute. repeat split. Qed.
+
+Example c19_real_configurations_ok :
+  cfg_ok cfg_compact16 /\ cfg_ok cfg_adder /\ cfg_ok cfg_summer /\ cfg_ok cfg_maxer /\ cfg_ok cfg_miner.
+Proof. exact cfgs_ok. Qed.
+
+(* thread 1 exits, thread 2 reuses its line; the counter at handle 0 is destroyed and its id recycled by handle 1 *)
+Definition c19_example_history : list op :=
+  [Spawn 0; Spawn 1; CNew 0; CAdd 0 0 5; CAdd 1 0 7; Exit 1; Spawn 2; CAdd 2 0 1; CDel 0; CNew 1; CAdd 2 1 4]%Z.
+Example c19_example_meets_hypotheses :
+  let x := run cfg_adder (start cfg_adder) c19_example_history in
+  threads_small cfg_adder x /\ chnd x 1 = Some {| i_iid := 0; i_off := 0; i_sto := 0 |} /\
+  t_tid (thr x 2) = Some 1 /\ g_used x 0 = [1; 1; 0] /\
+  snd (step cfg_adder x (CRead 1)) = OVal 4 0.
+Proof. cbv zeta. split; [vm_compute; discriminate|]. repeat split; vm_compute; reflexivity. Qed.
